@@ -1,6 +1,6 @@
 use easy_error::{ensure, Error};
 use milu::parser::{parse, SyntaxError};
-use milu::script::{Evaluatable, Type, Value};
+use milu::script::{Type, Value};
 use std::convert::TryInto;
 use std::str::FromStr;
 use tracing::trace;
@@ -16,7 +16,7 @@ pub struct Filter {
 impl Filter {
     pub fn validate(&self) -> Result<(), Error> {
         let ctx = create_context(Default::default());
-        let rtype = self.root.type_of(ctx.into())?;
+        let rtype = self.root.real_type_of(ctx.into())?;
         ensure!(
             rtype == Type::Boolean,
             "filter return type mismatch: required boolean, got {}",
@@ -26,7 +26,7 @@ impl Filter {
     }
     pub fn evaluate(&self, request: &Context) -> Result<bool, Error> {
         let ctx = create_context(request.props().clone());
-        let ret = self.root.value_of(ctx.into())?.try_into()?;
+        let ret = self.root.real_value_of(ctx.into())?.try_into()?;
         trace!("filter eval: {:?} => {}", request, ret);
         Ok(ret)
     }
